@@ -8,7 +8,9 @@ import (
 	"net/netip"
 	"time"
 
+	"github.com/mycoria/mycoria/config"
 	"github.com/mycoria/mycoria/m"
+	"github.com/mycoria/mycoria/storage"
 	vf "github.com/mycoria/mycoria/zzvf"
 )
 
@@ -83,4 +85,39 @@ func (e *EncryptionSession) VfSeqStateEnc() {
 	e.reglSeqHandler.outSeq.Store(vf.U32())
 	e.prioSeqHandler.outSeq.Store(vf.U32())
 	vf.Assume(e.reglSeqHandler.outSeq.Load() < 0xFFFFFFFE && e.reglSeqHandler.highest < rolloverUpperBound && e.prioSeqHandler.highest < rolloverUpperBound)
+}
+
+// vfRInstance is the instance a harness-built State needs.
+type VfInstance struct {
+	Id  *m.Address
+	Cfg *config.Config
+}
+
+func (i *VfInstance) Identity() *m.Address   { return i.Id }
+func (i *VfInstance) Config() *config.Config { return i.Cfg }
+
+// VfNewState builds a State that already has sessions for the given peers
+// (address records as VerifyAddress accepted them earlier).
+func VfNewState(inst instance, peers ...*m.PublicAddress) *State {
+	st := &State{sessions: map[netip.Addr]*Session{}, instance: inst, storage: storage.NewMemStorage()}
+	for _, p := range peers {
+		st.sessions[p.IP] = &Session{id: p.IP, address: p, state: st}
+	}
+	return st
+}
+
+// VfKeys returns the identities of the in/out ciphers (0 when not set up).
+func (e *EncryptionSession) VfKeys() (in, out uint64, set bool) {
+	if e == nil || e.inCipher == nil || e.outCipher == nil {
+		return 0, 0, false
+	}
+	return e.inCipher.(*vf.AEAD).K, e.outCipher.(*vf.AEAD).K, true
+}
+
+// VfEnc returns the current encryption session without creating one.
+func (s *Session) VfEnc() *EncryptionSession { return s.encryption }
+
+// VfSeqSnap returns the receive-window state of both classes.
+func (e *EncryptionSession) VfSeqSnap() [4]uint64 {
+	return [4]uint64{uint64(e.reglSeqHandler.highest), e.reglSeqHandler.bitMap, uint64(e.prioSeqHandler.highest), e.prioSeqHandler.bitMap}
 }
